@@ -324,8 +324,8 @@ fn d_check(prev: &Dump, st: &Stmt, next: &Dump) -> Vec<DFail> {
                 let (a, b, n) = (*a as usize, *b as usize, xs.len());
                 let want = if a <= b && b <= n { V::T(xs[a..b].to_vec()) } else { V::Null };
                 if erase_ids(r) != erase_ids(&want) {
-                    let f6 = if b > n && *r != V::Null { Some("F-C14-6") } else { None };
-                    fail("immutables_frozen(sub-tuple bounds)", format!("make_sub_tuple({}..{}) of a {}-element tuple returned {}", a, b, n, r.canon()), f6);
+                    // regression check for F-C14-6 (fixed by a83c277): no attribution, a VIOLATION if it returns
+                    fail("immutables_frozen(sub-tuple bounds)", format!("make_sub_tuple({}..{}) of a {}-element tuple returned {}", a, b, n, r.canon()), None);
                 }
             }
         }
